@@ -821,8 +821,10 @@ def run_check(ctx, prop, props_module, level):
                    "(thorough: all io interleavings of 4 tiny configurations), distinct = distinct (stream, schedule); every read of "
                    "every worker under the scheduler is replayed through the model's handler (loop replay)"}
     dist = {"tags": {}, "flavours": {}}
+    ctx.log("constants regenerated, proofs built and audited")
     exe_dbg = build_harness(ctx, "relay_dbg", assertions=True)
     exe_rel = build_harness(ctx, "relay_rel", assertions=False)
+    ctx.log("harness built (two flavours)")
     replay = None
     if getattr(ctx, "replay", None):
         import json
@@ -889,19 +891,48 @@ def run_check(ctx, prop, props_module, level):
                                  "constants probe says %s, cbuf.c built with assertions has %s bookkeeping cells"
                                  % (g.get("meta_assert"), g["meta"]), None)
             plan.append((exe, name, pinned + cases))
+        # the two build flavours are judged side by side (the time goes into the harness and the model drivers, all
+        # subprocesses); each flavour counts into its own coverage record, merged afterwards
+        def one_flavour(exe, name, cases, cov_f, dist_f, errs):
+            try:
+                meta = harness_meta(exe)
+                dist_f["flavours"][name] = len(cases)
+                # of the pinned streams of 128 KiB only those tagged `fifo-too` go through the (slower) FIFO engine as
+                # well (the index engine provably simulates it: Relay/IndexSim.lean); all of them through the index engine
+                def slow(c):
+                    return "huge" in c.tags and "pinned" in c.tags and "fifo-too" not in c.tags
+                for part, engines in (([c for c in cases if slow(c)], ("index",)),
+                                      ([c for c in cases if not slow(c)], ("index", "fifo"))):
+                    if part:
+                        impl = run_impl(exe, [c.ops for c in part], op_timeout=20 if quick else 60)
+                        evaluate(ctx, prop, part, impl, cov_f, dist_f, name, engines=engines, meta=meta)
+                ctx.log("in-process [%s]: %d cases (%d pinned)" % (name, len(cases), sum("pinned" in c.tags for c in cases)))
+            except BaseException as e:          # re-raised in the main thread
+                errs.append(e)
+
+        def merge(a, b):
+            for k, v in b.items():
+                if isinstance(v, dict):
+                    merge(a.setdefault(k, {}), v)
+                elif isinstance(v, (int, float)) and not isinstance(v, bool):
+                    a[k] = a.get(k, 0) + v
+                else:
+                    a.setdefault(k, v)
+        jobs, errs = [], []
         for exe, name, cases in plan:
-            meta = harness_meta(exe)
-            dist["flavours"][name] = len(cases)
-            # of the pinned streams of 128 KiB only those tagged `fifo-too` go through the (slower) FIFO engine as
-            # well (the index engine provably simulates it: Relay/IndexSim.lean); all of them through the index engine
-            def slow(c):
-                return "huge" in c.tags and "pinned" in c.tags and "fifo-too" not in c.tags
-            for part, engines in (([c for c in cases if slow(c)], ("index",)),
-                                  ([c for c in cases if not slow(c)], ("index", "fifo"))):
-                if part:
-                    impl = run_impl(exe, [c.ops for c in part], op_timeout=20 if quick else 60)
-                    evaluate(ctx, prop, part, impl, cov, dist, name, engines=engines, meta=meta)
-            ctx.log("in-process [%s]: %d cases (%d pinned)" % (name, len(cases), sum("pinned" in c.tags for c in cases)))
+            cov_f = {"evaluations": 0, "samples": [], "_distinct": set()}
+            dist_f = {"tags": {}, "flavours": {}}
+            th = threading.Thread(target=one_flavour, args=(exe, name, cases, cov_f, dist_f, errs))
+            th.start()
+            jobs.append((th, cov_f, dist_f))
+        for th, cov_f, dist_f in jobs:
+            th.join()
+            cov["evaluations"] += cov_f["evaluations"]
+            cov["_distinct"] |= cov_f["_distinct"]
+            cov["samples"] = (cov["samples"] + cov_f["samples"])[:4]
+            merge(dist, dist_f)
+        if errs:
+            raise errs[0]
         d9_probe(ctx, exe_dbg, dist)
     if not replay:
         # ---- third part: the unmodified dsh.c under the controlled scheduler, adversarial schedules
